@@ -280,6 +280,33 @@ func init() {
 			st.alloc = tr.define("alloc", "Int", app("s_arr", r))
 			return []Term{r}
 		},
+		// the third-party scanner as a state machine: Scan advances a ghost state; Pos and TokenText
+		// are functions of that state (A-SCAN: what they return is assumed, that repeated calls
+		// between two Scans agree is all the model adds)
+		"(*github.com/jig/scanner.Scanner).Scan": func(a *Act, st *State, callee *ssa.Function, args []Term, pos token.Pos) []Term {
+			tr := a.tr
+			c := tr.comp("ghost:scan", nil, "Int", false)
+			cur := tr.read(tr.heapOf(st, c))
+			nx := tr.define("scanstate", "Int", app("+", cur, "1"))
+			st.heap[c.name] = tr.heapStore(tr.heapOf(st, c), nil, nx)
+			tr.eng.declareOnce(tr, "scan_tok", "(declare-fun scan_tok (Int) Int)")
+			return []Term{app("scan_tok", nx)}
+		},
+		"(*github.com/jig/scanner.Scanner).Pos": func(a *Act, st *State, callee *ssa.Function, args []Term, pos token.Pos) []Term {
+			tr := a.tr
+			c := tr.comp("ghost:scan", nil, "Int", false)
+			cur := tr.read(tr.heapOf(st, c))
+			rs := a.sortOf(callee.Signature.Results().At(0).Type())
+			tr.eng.declareOnce(tr, "scan_pos", fmt.Sprintf("(declare-fun scan_pos (Int) %s)", rs))
+			return []Term{app("scan_pos", cur)}
+		},
+		"(*github.com/jig/scanner.Scanner).TokenText": func(a *Act, st *State, callee *ssa.Function, args []Term, pos token.Pos) []Term {
+			tr := a.tr
+			c := tr.comp("ghost:scan", nil, "Int", false)
+			cur := tr.read(tr.heapOf(st, c))
+			tr.eng.declareOnce(tr, "scan_text", "(declare-fun scan_text (Int) String)")
+			return []Term{app("scan_text", cur)}
+		},
 		"time.Until": func(a *Act, st *State, callee *ssa.Function, args []Term, pos token.Pos) []Term {
 			return []Term{a.tr.freshConst("dur", "Int")}
 		},
